@@ -53,9 +53,23 @@ def first_packet_size():
     return int(m.group(1))
 
 
-def _mc(ctx, tag, chunks, allcuts, dev="{}", inv=STATEMENT_INV + " DecidesAtStop", workers=6):
-    sub = {"BUF": K["Buf"], "MAXCHUNKS": chunks, "ALLCUTS": "TRUE" if allcuts else "FALSE", "DEV": dev, "INV": inv}
+# the quick model check keeps one representative of each branch of the decision tree
+AUTH_Q = '{"badkey", "method", "ok", "nosession"}'
+HIDDEN_Q = '{"bogus", "uid"}'
+
+
+def _mc(ctx, tag, chunks, allcuts, dev="{}", inv=STATEMENT_INV + " DecidesAtStop", workers=4, small=False):
+    sub = {"BUF": K["Buf"], "MAXCHUNKS": chunks, "ALLCUTS": "TRUE" if allcuts else "FALSE", "DEV": dev, "INV": inv,
+           "SCRIPTS": SCRIPTS, "DOWNS": DOWNS, "AUTH": AUTH_Q if small else AUTH, "HIDDEN": HIDDEN_Q if small else HIDDEN}
     return lib.run_tlc(ctx, "Dispatch", "Dispatch_mc.cfg", sub, tag=tag, workers=workers, expect_violation=True, env=JVM, timeout=3000)
+
+
+def _negatives(ctx):
+    """One after the other (few JVMs at a time); each must stop at its own invariant."""
+    out = {}
+    for dev, inv in NEG.items():
+        out[dev] = _mc(ctx, "neg_" + dev, 1, False, '{"%s"}' % dev, inv, 2)
+    return out
 
 
 def _gen(ctx, tag, mode, chunks, full=False, allcuts=False, dev="{}", workers=4, simulate=None):
@@ -78,22 +92,22 @@ def run(ctx):
     # the concrete exploration needs nothing from TLC: start it now
     explore_f = pool.submit(lib.run_go, ctx, "server", "TestVerifC09Explore", {"VERIF_C09_BUF": buf}, 3000)
     jobs = {}
+    neg_f = pool.submit(_negatives, ctx)
     if q:
-        jobs["mc"] = pool.submit(_mc, ctx, "mc_2chunks_anchor_cuts", 2, False)
-        jobs["gen_reader"] = pool.submit(_gen, ctx, "gen_reader", "reader", 3)
-        jobs["gen_relay"] = pool.submit(_gen, ctx, "gen_relay", "relay", 2)
+        jobs["mc"] = pool.submit(_mc, ctx, "mc_2chunks_anchor_cuts", 2, False, small=True)
+        jobs["gen_reader"] = pool.submit(_gen, ctx, "gen_reader", "reader", 2)          # every shape x every 1-2 segment split x deadline/close
+        jobs["gen_relay"] = pool.submit(_gen, ctx, "gen_relay", "relay", 2)             # every script x reachability
+        jobs["gen_sim"] = pool.submit(_gen, ctx, "gen_sim", "full", 4, True, True, simulate=1000)   # seeded walks: 4 segments, any cut, any timeline
     else:
         jobs["mc"] = pool.submit(_mc, ctx, "mc_3chunks_all_cuts", 3, True, workers=8)
         jobs["gen_reader"] = pool.submit(_gen, ctx, "gen_reader", "reader", 4, True)
         jobs["gen_relay"] = pool.submit(_gen, ctx, "gen_relay", "relay", 3)
         jobs["gen_full"] = pool.submit(_gen, ctx, "gen_full", "full", 3, True)
-    for dev, inv in NEG.items():
-        jobs["neg_" + dev] = pool.submit(_mc, ctx, "neg_" + dev, 1, False, '{"%s"}' % dev, inv, 2)
+        jobs["gen_sim"] = pool.submit(_gen, ctx, "gen_sim", "full", 4, True, True, simulate=20000)
     res = {n: f.result() for n, f in jobs.items()}
-    for dev, inv in NEG.items():
-        r = res["neg_" + dev]
-        if r.violated != inv:
-            raise lib.Inconclusive("negative configuration %s did not break %s (got %s): the invariant would be vacuous" % (dev, inv, r.violated))
+    for dev, r in neg_f.result().items():
+        if r.violated != NEG[dev]:
+            raise lib.Inconclusive("negative configuration %s did not break %s (got %s): the invariant would be vacuous" % (dev, NEG[dev], r.violated))
     lib.require_ok(res["mc"], "Dispatch model check")
     ctx.log("model check: all invariants hold, %d distinct states (%.0fs); %d negative configurations rejected"
             % (res["mc"].distinct, res["mc"].wall, len(NEG)))
